@@ -10,9 +10,9 @@ from harness.c07_util import World, Hang, time_limit
 from translate import c07_index_sites, c07_index_shapes, c07_index_del, c07_index_listops, c07_index_glue
 
 MANIFEST = dict(
-    technique='Rocq proof (index invariant preserved by every operation incl. defaultdict reads, by induction over operation sequences on several maps; every operation respects ix_equiv; search() sound and complete; make_unique loop termination by pigeonhole; CopySet iteration total and exception-free under arbitrary mutation; worldspawn pinned; every index-maintaining function of vmf.py read off the source as a program/shape and proved equal to the model operation whenever its named path obligations hold) + four fail-closed ast translators (census of writers/escapes/key sources on a normalised function; shapes/programs of Entity.__setitem__ (lookup loop and maintenance chain), Entity.__delitem__, Entity.clear, VMF.add_ent, VMF.add_ents, VMF.remove_ent, _remove_copyset, VMF.search, CopySet.__iter__) + vm_compute correspondences (operation sequences, search, search as written, iteration traces) + scan oracle on real VMF objects',
-    text='Theorems in Props/C07.v about SM/IndexModel.v (entity list, spawn, per-entity key lists with case-insensitive first-spelling-wins lookup, by_class/by_target as maps from folded key to sets of entities, possibly holding empty sets left by defaultdict reads): the invariant "every index entry equals the scan of entities+worldspawn under the current folded classname / targetname (\'\' -> None), the worldspawn has class worldspawn and is listed under it" holds for VMF(), for VMF.parse of any tree, is preserved by every operation (create_ent/add_ent/add_ents/remove_ent, Entity(), copy between maps, []=, del (single and tuple), pop, popitem, setdefault, update, clear, make_unique, export, reading by_class[k]/by_target[k]) whatever its arguments and whether or not it raises, hence after every finite history over any number of maps; search() returns exactly the matching entities; states that differ only in empty sets held by the index maps stay equivalent under every operation (round 3). The decisive code is modelled from its source, regenerated on every run, and for each function a theorem says that every generated object passing its named obligations is the model operation for all inputs: the lookup loop of Entity.__setitem__ (round 2) and, round 3, its whole maintenance chain incl. the error path of the worldspawn guard with its recursive store (set_item); Entity.__delitem__ = pre-loop program + pop loop shape (del_item); Entity.clear as a step list (clear); VMF.add_ents over one-shot and re-iterable arguments (add_ents); VMF.add_ent and VMF.remove_ent as programs whose conditions are evaluated where they stand (add_ent, remove_ent); _remove_copyset as a shape (ix_remove; leaving empty sets is reader-equal); VMF.search as a program over real defaultdict semantics and CopySet.__iter__ as a generator program (round 2). Faulty shapes are refuted by computed witnesses on reachable states (caller-spelling read, read after store, if/elif search, plain set iteration, direct revert in the worldspawn guard, add_ents iterating twice, set.remove / inverted emptiness test / missing None guard in _remove_copyset, unguarded by_target[None] addition and pop by the caller\'s spelling in __delitem__, membership test before the list removal and and-guard in remove_ent, clear forgetting the targetname). make_unique: the while-True loop ends within n+1 candidates and never raises. Tied to vmf.py on every run by the fail-closed census (writers of Entity._keys, escapes of the dict, writers of VMF.entities/VMF.spawn, every index update: key folded, value read from the filed entity, adds guarded; classified on a normalised function), 34 shape/path obligations, and correspondences comparing, after every step, error code, entity list, key lists and both indexes of the model with real VMF objects (add_ents called with generator/iterator/map/list/tuple), search results and the yield traces of index iterations with mutating bodies; a scan oracle checks the property directly on the implementation after every step.',
-    note='Trusted: Coq kernel + vm_compute, translate/c07_index_sites.py, c07_index_shapes.py, c07_index_del.py, c07_index_listops.py, the hand model SM/IndexModel.v (tied by the correspondences and, for __setitem__/__delitem__/clear/add_ent/add_ents/remove_ent/_remove_copyset/search/CopySet.__iter__, by translator-generated programs proved equal to it), CPython. No axioms. str.casefold is a parameter of the model; theorems assume it fixes the empty string and the literals classname/targetname/worldspawn, is idempotent (search), distributes over an appended decimal number (make_unique termination) and does not map nodeid to classname/targetname (clear) - all proved for ASCII lower-casing, true of str.casefold. Hand-modelled without a generated program (census + correspondence only): VMF.__init__, VMF.parse/replace_spawn, Entity.__init__/copy, make_unique, the MutableMapping mixins pop/popitem/setdefault/update. Not modelled: nodeid processing (C08), conversion of non-string values (conv_kv), Entity.keys setter (clear+update), laziness/order/multiplicity of search() results, the empty sets that make_unique and iteration leave in the implementation\'s defaultdicts (shown irrelevant for every later operation: c07_run_respects_ix_equiv). Non-ASCII names only in the oracle stream. Out of domain: add_ent of the worldspawn object or of an entity created for another VMF, writing through the dict returned by the deprecated Entity.keys property.',
+    technique='Rocq proof (index invariant preserved by every operation incl. defaultdict reads, by induction over operation sequences on several maps; every operation respects ix_equiv; search() sound and complete, and its multiplicity; make_unique loop termination by pigeonhole; CopySet iteration total and exception-free under arbitrary mutation; worldspawn pinned; EVERY function of vmf.py that writes an index, an entity list, VMF.spawn or a key dict - and the glue around them - read off the source as a program/shape and proved equal to the model operation whenever its named obligations hold; one statement c07_property over all generated programs with the census as a hypothesis) + five fail-closed ast translators (census of writers/escapes/key sources on a normalised function; programs/shapes of Entity.__setitem__ (lookup loop and maintenance chain), Entity.__delitem__, Entity.clear, Entity.__init__/parse/copy, Entity.pop, Entity.make_unique, VMF.__init__, VMF.parse (worldspawn replacement, entity loop), VMF.create_ent, VMF.add_ent, VMF.add_ents, VMF.remove_ent, _remove_copyset, VMF.search, CopySet.__iter__) + vm_compute correspondences (operation sequences incl. non-ASCII names under CPython\'s casefold table, search, search as written with multiplicities, iteration traces) + scan oracle on real VMF objects under a time limit',
+    text='Theorems in Props/C07.v about SM/IndexModel.v (entity list, spawn, per-entity key lists with case-insensitive first-spelling-wins lookup, by_class/by_target as maps from folded key to sets of entities, possibly holding empty sets left by defaultdict reads): the invariant "every index entry equals the scan of entities+worldspawn under the current folded classname / targetname (\'\' -> None), the worldspawn has class worldspawn and is listed under it" holds for VMF(), for VMF.parse of any tree, is preserved by every operation (create_ent/add_ent/add_ents/remove_ent, Entity(), copy between maps, []=, del (single and tuple), pop, popitem, setdefault, update, clear, make_unique, export, reading by_class[k]/by_target[k]) whatever its arguments and whether or not it raises, hence after every finite history over any number of maps; search() returns exactly the matching entities, each once per matching name plus once per matching class (c07_search_multiplicity, round 4); states that differ only in empty sets held by the index maps stay equivalent under every operation. The code is modelled from its source, regenerated on every run, and for each function a theorem says that every generated object passing its named obligations is the model operation for all inputs: Entity.__setitem__ (lookup loop + maintenance chain incl. the error path of the worldspawn guard), Entity.__delitem__, Entity.clear, VMF.add_ent/add_ents/remove_ent, _remove_copyset, VMF.search, CopySet.__iter__ (rounds 2-3) and, round 4, the glue: VMF.__init__ (= init), VMF.parse = constructor + worldspawn replacement + entity loop (= parse_init for every tree), VMF.create_ent, Entity.__init__/parse/copy, Entity.pop, Entity.make_unique (= make_unique). c07_property (round 4) composes them: for every record P of generated objects with programs_ok P and every census list (all functions that write by_class/by_target/VMF.entities/VMF.spawn/Entity._keys, from the census translator) with census_covered, every census function as written is the model operation on its modelled domain and preserves the invariant, and after every history of public operations as written on a map constructed as written the invariant holds, lookups by class and by name are exactly the scan, search as written is search_spec and the worldspawn is pinned; both hypotheses are instance obligations of every run. Faulty shapes are refuted by computed witnesses on reachable states (rounds 2-3 list, plus: constructor that does not file the spawn, parse re-assigning the spawn before dropping the placeholder, pop through _keys.pop, constructor filling the dict directly, make_unique looking a candidate up un-folded, search yielding the class set twice). Folding: str.casefold is a parameter; c07_table_fold_ok/idem show that ASCII lower-casing extended by any table of non-ASCII code points with folded images satisfies every fold hypothesis, and the correspondence runs the model with CPython\'s table for the names it uses (ß, İ, ...). Tied to vmf.py on every run by the fail-closed census, 58 shape/path obligations, and correspondences comparing, after every step, error code, entity list, key lists and both indexes of the model with real VMF objects (a fifth of the random histories with non-ASCII names; add_ents called with generator/iterator/map/list/tuple), search results as sets and as multisets, and the yield traces of index iterations with mutating bodies; a scan oracle checks the property directly on the implementation after every step (every history under a time limit: a hang is a violation with a replay).',
+    note='Trusted: Coq kernel + vm_compute, translate/c07_index_sites.py, c07_index_shapes.py, c07_index_del.py, c07_index_listops.py, c07_index_glue.py, the hand model SM/IndexModel.v (tied by the correspondences and, for every function of the census and the glue, by translator-generated programs proved equal to it), CPython (incl. the MutableMapping mixins popitem/setdefault/update, which Entity inherits: obligation popitem_setdefault_update_are_the_mutablemapping_mixins). No axioms. Composition in c07_property is by function: a call from one index-maintaining function to another is interpreted as the model operation, which the callee\'s own clause shows it to be (the generated programs are not inlined into each other; _remove_copyset = ix_remove is a separate clause). str.casefold is a parameter of the model; theorems assume it fixes the empty string and the literals classname/targetname/worldspawn, is idempotent (search, pop with the folded key), distributes over an appended decimal number (make_unique termination) and does not map nodeid to classname/targetname (clear) - proved for ASCII lower-casing and for every table folding with non-ASCII keys, checked against CPython for the code points used. Not modelled: nodeid processing (C08), conversion of non-string values (conv_kv), Entity.keys setter (clear+update), laziness and order of search() results (the generator runs when iterated; multiplicity is modelled), the empty sets that make_unique and iteration leave in the implementation\'s defaultdicts (shown irrelevant for every later operation: c07_run_respects_ix_equiv), VMF.export beyond its three key operations on the worldspawn. Out of domain: add_ent of the worldspawn object or of an entity created for another VMF, writing through the dict returned by the deprecated Entity.keys property.',
 )
 
 NAMES = ['a', 'A', 'Ab', 'aB', '', 'a1', 'worldspawn']
@@ -605,10 +605,10 @@ def corr(ck: Ck, escalate: bool = False, shapes: bool = False) -> None:
             lits.append('[' + '; '.join(f'({coq_wop(tab, f)}, {m}, {coq_exp(tab, err, obs)})' for f, m, err, obs in steps) + ']')
             flat_ops = '[' + '; '.join(coq_wop(tab, f) for f, _m, _e, _o in steps) + ']'
             qs = ' && '.join(f'match w !! {m} with Some st => sq {_c_nats(r)} {_strtab(tab, q)} st | None => false end'
-                             for m, q, r, _ in queries)
+                             for m, q, r, _ in queries) or 'true'      # no queries: the history was cut short (exception / hang)
             if shapes:   # VMF.search as written (generated program over the defaultdict semantics), 5 of the queries
                 qs2 = ' && '.join(f'match w !! {m} with Some st => sq2 {_c_nats(r)} {_strtab(tab, q)} st && sq3 {_c_nats(ys)} {_strtab(tab, q)} st | None => false end'
-                                  for m, q, r, ys in queries if q in QUERIES_SH)
+                                  for m, q, r, ys in queries if q in QUERIES_SH) or 'true'
                 q2lits.append(f'(let w := wrun cf {flat_ops} w2 in {qs2})')
             qlits.append(f'(let w := wrun cf {flat_ops} w2 in {qs})')
             if iters:
@@ -897,19 +897,20 @@ def run(ck: Ck) -> None:
         timing[name] = round(time.time() - t0, 1)
         t0 = time.time()
     ck.rule = ('histories over 2-3 real VMF objects with at most 6 entities each; names drawn from '
-               "{a, A, Ab, aB, '', a1, worldspawn} (oracle stream also ß/SS/ss/İ), keys from classname/targetname in "
+               "{a, A, Ab, aB, '', a1, worldspawn} (15 % of the oracle histories and 20 % of the correspondence histories: ß/SS/ss/İ), keys from classname/targetname in "
                'three spellings plus two other keys; operations create/new/copy/add/adds (iterable passed as generator, iterator, map object, list or tuple)/remove/set/del/tuple-del/pop/'
                'popitem/setdefault/update/clear/make_unique/export/parse/new map/defaultdict read of an index (folded or '
                'un-folded key)/iterate-while-mutating (loop bodies: set/del/remove/pop/clear/make_unique/create a like-named '
                'entity = late addition); a history is non-trivial when it adds an entity to a map and afterwards mutates keys '
                'or removes; distinct by full history')
     ck.trusted.append('hand-written model SM/IndexModel.v (tied by the operation-sequence correspondence and the census translator on every run; '
-                      'Entity.__setitem__ lookup, VMF.search and CopySet.__iter__ additionally by translator-generated shapes proved equal to it)')
-    ck.trusted.append('translate/c07_index_shapes.py, c07_index_del.py, c07_index_listops.py (fail-closed symbolic walks of Entity.__setitem__ (lookup loop and index maintenance), Entity.__delitem__, VMF.add_ent, VMF.add_ents, VMF.remove_ent, VMF.search, CopySet.__iter__, _remove_copyset)')
+                      'every function of the census and the glue around them additionally by translator-generated programs proved equal to it: theorem c07_property)')
+    ck.trusted.append('translate/c07_index_shapes.py, c07_index_del.py, c07_index_listops.py, c07_index_glue.py (fail-closed symbolic walks of Entity.__setitem__ (lookup loop and index maintenance), Entity.__delitem__, Entity.clear, Entity.__init__/parse/copy/pop/make_unique, VMF.__init__, VMF.parse, VMF.create_ent, VMF.add_ent, VMF.add_ents, VMF.remove_ent, VMF.search, CopySet.__iter__, _remove_copyset)')
     ck.assumptions += [
         'str.casefold leaves the empty string and the literals classname/targetname/worldspawn unchanged (hypotheses of every theorem; true of CPython)',
         'operations refer to Entity objects created with the same VMF as parent; vmf.add_ent(vmf.spawn) is outside the domain',
-        'str.casefold is idempotent and distributes over an appended decimal number, fold(b + str(i)) = fold(b) + str(i) (hypotheses of the search / make_unique termination theorems; proved for ASCII lower-casing)',
+        'str.casefold is idempotent and distributes over an appended decimal number, fold(b + str(i)) = fold(b) + str(i) (hypotheses of the search / make_unique termination theorems; proved for ASCII lower-casing and for every table folding, c07_table_fold_ok/idem; the table of the code points used is taken from CPython on every run)',
+        'popitem / setdefault / update are the collections.abc.MutableMapping mixins (Entity does not define them: obligation) and behave as documented: popitem = first key through __getitem__/__delitem__, setdefault = __getitem__ else __setitem__, update = __setitem__ per item',
         'nobody writes through the dict returned by the deprecated Entity.keys property (the only place, besides Entity.copy -> constructor, where _keys escapes: census obligation all_key_dict_escapes_known)',
         "the 'nodeid' keyvalue processing of __setitem__/__delitem__/add_ent/remove_ent (property C08) does not touch classname/targetname and is not modelled",
     ]
